@@ -142,6 +142,8 @@ def run_jobs_list(quick=True):
         dict(n=10, batch_size=None, max_iter=30, patience=4, atol=0.5, validation=True),
         dict(n=9, batch_size=4, max_iter=25, patience=3, rtol=0.05, atol=0.0, validation=True, prune=False),
         dict(n=8, batch_size=2, max_iter=12, patience=3, validation=True, restore=False, lr=0.5),
+        # no validation model, patience < max_iter, non-monotone loss (large learning rate)
+        dict(n=10, batch_size=None, max_iter=30, patience=4, validation=False, lr=1.2),
     ]
     if not quick:
         jobs += [
